@@ -14,4 +14,6 @@ let table : (string * (val0 -> val0)) list = [
   "chk_c08_resp", chk_c08_resp;
   "chk_fwd", chk_fwd;
   "chk_fwd_e2e", chk_fwd_e2e;
+  "chk_c10_err", chk_c10_err;
+  "chk_c10_neg", chk_c10_neg;
 ]
